@@ -4,6 +4,7 @@ property text and one-line descriptions of every change already submitted for it
 fresh sub-agent produces something different.  usage: make_prompts.py <letter>"""
 import json, os, sys
 letter = sys.argv[1]
+plain = len(sys.argv) > 2 and sys.argv[2] == "plain"     # no list of earlier submissions: measures detection of ordinary seeds
 props = {}
 for l in open('/verif/properties.jsonl'):
     p = json.loads(l); props[p['id']] = p
@@ -37,6 +38,7 @@ for i, p in props.items():
              "two events, one thread doing two things in a particular order) rather than broadly.  Think about which public entry "
              "points, constructor variants, argument shapes, platform facts and orders of operations a checker written from the "
              "property text alone would be least likely to exercise.\n")
-    t = t.replace("\nAlso produce a demonstration:", extra + "\nAlso produce a demonstration:")
+    if not plain:
+        t = t.replace("\nAlso produce a demonstration:", extra + "\nAlso produce a demonstration:")
     open('/tmp/mut/%s%s.prompt' % (i, letter), 'w').write(t)
 print("prompts written for letter", letter)
